@@ -63,6 +63,14 @@ OTHER_ALGS = sorted(a for a in hashlib.algorithms_available if a not in ('md5', 
 for alg in OTHER_ALGS:
     for flat in (True, False):
         KEYMAPS.append({'cls': 'hashmap', 'opt': alg, 'flat': flat, 'typed': False, 'sentinel': False})
+# other SPELLINGS hashlib.new accepts for the same algorithms (upper case, aliases): still a named digest, still session-stable
+for alg in ('MD5', 'SHA256', 'sha-256', 'Sha512'):
+    try:
+        hashlib.new(alg, b'')
+    except Exception:
+        continue
+    KEYMAPS.append({'cls': 'hashmap', 'opt': alg, 'flat': True, 'typed': False, 'sentinel': False})
+    KEYMAPS.append({'cls': 'hashmap', 'opt': alg, 'flat': False, 'typed': True, 'sentinel': False})
 
 
 # chained keymaps ('+'): e.g. md5 of the pickled key, the usual way to get short file-name-safe keys
